@@ -319,7 +319,8 @@ impl<'i, R: RuleType> Pairs<'i, R> {
             pair.input,
             Some(pair.line_index),
             pair.start,
-            end,
+            // `pairs::new` takes an exclusive end: one past the pair's End token.
+            end + 1,
         )
     }
 }
